@@ -21,15 +21,15 @@ ResetVars == /\ hist' = [g \in Groups |-> <<>>] /\ state' = [g \in Groups |-> <<
              /\ shared' = <<>> /\ out' = [g \in Groups |-> <<>>] /\ steps' = 0
 TrReset == IsEv("Reset") /\ ResetVars /\ solo' = NoSolo /\ have' = {}
 
+Attributed(o) == \A i \in DOMAIN o : "unattributed" \notin DOMAIN o[i] /\ "inconsistent" \notin DOMAIN o[i]
 TrSolo ==
     /\ IsEv("Solo")
     /\ Ln.foreign = 0                         \* nothing may be attributed to a group that sent no data
-    /\ \A i \in DOMAIN Ln.out : "unattributed" \notin DOMAIN Ln.out[i]
+    /\ Attributed(Ln.out)
     /\ solo' = [solo EXCEPT ![GName(Ln.grp)] = Ln.out]
     /\ have' = have \cup {GName(Ln.grp)}
     /\ UNCHANGED vars
 
-Attributed(o) == \A i \in DOMAIN o : "unattributed" \notin DOMAIN o[i]
 TrMixed ==
     /\ IsEv("Mixed")
     /\ have = Groups
